@@ -10,6 +10,9 @@
 //!       fresh nodes, fabric id = the one of `dnoc`; `droot` = root installed on the device if it
 //!       differs from the controller's (`root`); `ckey=<k>` / `dkey=<k>`: the node signs with pool key
 //!       `k` instead of the key its NOC certifies.
+//!       `cpnoc=<rec> cpicac=<rec|->` / `dpnoc= dpicac=`: the node is installed as above (identity, destination id)
+//!       but PRESENTS these certificates in the handshake and signs with their key (hook `Fabric::verif_present_certs`):
+//!       a dishonest peer answering for one fabric / node with the credentials of another.
 //!   `again [mut=<M>] [sched=<S>]`   another handshake between the same two nodes (resumption
 //!       is offered when the previous one seeded the caches)
 //!
@@ -485,11 +488,35 @@ fn make_nodes<C: Crypto>(
     dkey: Option<u64>,
     names: Rc<Names>,
     foreign: Prev,
+    cpres: Option<(Rec, Option<Rec>)>,
+    dpres: Option<(Rec, Option<Rec>)>,
 ) -> Result<Nodes, String> {
     let ctl = Matter::new(&TEST_DEV_DET, TEST_DEV_COMM, &TEST_DEV_ATT, 0);
     let dev = Matter::new(&TEST_DEV_DET, TEST_DEV_COMM, &TEST_DEV_ATT, 0);
     let cf = install(crypto, keys, &ctl, root, cnoc, cicac, ckey)?;
     let df = install(crypto, keys, &dev, droot, dnoc, dicac, dkey)?;
+    // a dishonest peer: identity as installed, other certificates presented
+    let present = |m: &Matter, idx: core::num::NonZeroU8, p: &(Rec, Option<Rec>), k: Option<u64>| -> Result<(), String> {
+        let nb = mint(crypto, keys, &p.0).map_err(|_| "mint")?;
+        let ib = match &p.1 {
+            Some(i) => mint(crypto, keys, i).map_err(|_| "mint")?,
+            None => vec![],
+        };
+        let sk = keys.key(k.unwrap_or(p.0.pk)).sk;
+        m.with_state(|st| {
+            st.fabrics
+                .get_mut(idx)
+                .ok_or_else(|| "nofabric".to_string())?
+                .verif_present_certs(&nb, &ib, CanonPkcSecretKeyRef::new(&sk))
+                .map_err(|e| format!("present:{:?}", e.code()))
+        })
+    };
+    if let Some(p) = &cpres {
+        present(&ctl, cf, p, ckey)?;
+    }
+    if let Some(p) = &dpres {
+        present(&dev, df, p, dkey)?;
+    }
     Ok(Nodes {
         ctl,
         dev,
@@ -628,7 +655,9 @@ fn run_case(out: &mut Out, case: &Case) {
                     return "bad".to_string();
                 };
                 let droot = get("droot").unwrap_or_else(|| root.clone());
-                let n = match make_nodes(&crypto, &keys, &root, &cnoc, get("cicac").as_ref(), key("ckey"), &droot, &dnoc, get("dicac").as_ref(), key("dkey"), names.clone(), foreign.clone()) {
+                let cpres = get("cpnoc").map(|n| (n, get("cpicac")));
+                let dpres = get("dpnoc").map(|n| (n, get("dpicac")));
+                let n = match make_nodes(&crypto, &keys, &root, &cnoc, get("cicac").as_ref(), key("ckey"), &droot, &dnoc, get("dicac").as_ref(), key("dkey"), names.clone(), foreign.clone(), cpres, dpres) {
                     Ok(n) => n,
                     Err(e) => return e,
                 };
@@ -679,7 +708,7 @@ fn run_case(out: &mut Out, case: &Case) {
                 let c = gen_records(&p);
                 let d = gen_records(&GenP { node: 901, kn: 4, ..p });
                 let fnames: Rc<Names> = Rc::new(Names::default());
-                let n = match make_nodes(&crypto, &keys, &c.0, &c.2, None, None, &c.0, &d.2, None, None, fnames, Rc::new(RefCell::new(Default::default()))) {
+                let n = match make_nodes(&crypto, &keys, &c.0, &c.2, None, None, &c.0, &d.2, None, None, fnames, Rc::new(RefCell::new(Default::default())), None, None) {
                     Ok(n) => n,
                     Err(e) => return e,
                 };
@@ -766,7 +795,7 @@ fn random_sched(r: &mut Rng, out: &mut Out) -> String {
     format!("sched={}", v.join("."))
 }
 
-const RULE: &str = "#rule a case is a sequence of operations on two real in-process Matter nodes on the simulated network (CaseInitiator::perform vs the SecureChannel responder): CASE handshakes with honest chains (with/without ICAC, CATs); EVERY entry of the C19 defect catalogue (shared code: c19::defect_at) applied to each certificate of the chain presented by the controller (responder validates) and by the device (initiator validates); a node that does not hold its NOC's key; resumption chains; one mutation of one handshake datagram (bit flip in a TLV field / payload / header, truncation, replay or field substitution from the previous handshake = stale ids and MICs, substitution from a handshake of two other nodes = foreign ids and MICs) or a loss/duplication/delay schedule; fabric removal and re-installation on the device between handshakes; plus op strings on the real ResumableSessions cache. Observed per side: live CASE sessions (fabric, peer node, CATs), key agreement, which path was taken, the resumption id received, both resumption caches; non-trivial = by outputs";
+const RULE: &str = "#rule a case is a sequence of operations on two real in-process Matter nodes on the simulated network (CaseInitiator::perform vs the SecureChannel responder): CASE handshakes with honest chains (with/without ICAC, CATs); EVERY entry of the C19 defect catalogue (shared code: c19::defect_at) applied to each certificate of the chain presented by the controller (responder validates) and by the device (initiator validates); a node that does not hold its NOC's key; a DISHONEST peer installed with standard credentials (identity, destination id) but presenting the changed chain or valid credentials of another node / of another fabric id served by the same root key (hook Fabric::verif_present_certs), on either side; resumption chains; one mutation of one handshake datagram (bit flip in a TLV field / payload / header, truncation, replay or field substitution from the previous handshake = stale ids and MICs, substitution from a handshake of two other nodes = foreign ids and MICs) or a loss/duplication/delay schedule; fabric removal and re-installation on the device between handshakes; plus op strings on the real ResumableSessions cache. Observed per side: live CASE sessions (fabric, peer node, CATs), key agreement, which path was taken, the resumption id received, both resumption caches; non-trivial = by outputs";
 
 /// the time the nodes of this harness live at (virtual clock, same for every node)
 fn node_time() -> (u32, bool) {
@@ -832,7 +861,7 @@ pub fn gen(a: &Args) -> String {
     };
 
     // ---- 1. the C19 defect catalogue, every entry on every certificate, presented by either side
-    let rounds = if a.thorough { 6 } else { 1 };
+    let rounds = if a.thorough { 10 } else { 1 };
     for round in 0..rounds {
         for k in 0..N_DEFECTS {
             for who in 0..3u64 {
@@ -848,21 +877,67 @@ pub fn gen(a: &Args) -> String {
                     };
                     out.stat("kind_catalogue", 1);
                     out.stat(&format!("cat_{}_{}", if on_ctl { "ctl" } else { "dev" }, name), 1);
-                    // the presenter holds the (possibly defective) NOC / ICAC; the VERIFIER trusts the (possibly
-                    // defective or different) root of the mutated chain
+                    let o = |x: &Option<Rec>| x.as_ref().map(|r| r.text()).unwrap_or_else(|| "-".into());
+                    // (a) an honest node that was GIVEN these credentials: the presenter is installed with the (possibly
+                    // defective) NOC / ICAC; the VERIFIER trusts the (possibly defective or different) root
                     let (cc, dd, croot, droot) = if on_ctl {
                         ((root.clone(), ch.icac.clone(), ch.noc.clone()), d.clone(), root.clone(), ch.root.clone())
                     } else {
                         (c.clone(), (root.clone(), ch.icac.clone(), ch.noc.clone()), ch.root.clone(), root.clone())
                     };
-                    let dr = if droot != croot { Some(droot) } else { None };
+                    let dr = if droot != croot { Some(droot.clone()) } else { None };
                     let mut ops = vec![hs_line(&croot, &cc, &dd, dr.as_ref(), "")];
                     if cr.chance(1, 4) {
                         ops.push("again".to_string());
                     }
                     emit(&mut out, ops);
+                    // (b) a DISHONEST peer: installed with the standard credentials (so that the destination id and
+                    // its own identity are those of the addressed fabric / node) but presenting the changed chain
+                    out.stat("kind_catalogue_presented", 1);
+                    let extra = format!("{}pnoc={} {}picac={}", if on_ctl { "c" } else { "d" }, ch.noc.text(), if on_ctl { "c" } else { "d" }, o(&ch.icac));
+                    emit(&mut out, vec![hs_line(&croot, &c, &d, dr.as_ref(), &extra)]);
                 }
             }
+        }
+    }
+
+    // ---- 1b. a peer with VALID credentials that are not the addressed ones (same root): another node id, another
+    // fabric id served by the same root key (with and without ICAC), on either side
+    let n_other = if a.thorough { 150 } else { 6 };
+    for k in 0..n_other {
+        for on_ctl in [true, false] {
+            let mut cr = r.fork();
+            let (fab, c, d) = base(&mut cr, k % 2 == 0);
+            let side = if on_ctl { &c } else { &d };
+            let (mut pn, mut pi) = (side.2.clone(), side.1.clone());
+            let what = match k % 3 {
+                0 => {
+                    for at in pn.s.iter_mut() { if let Attr::Node(v) = at { *v += 7; } }
+                    "other_node_id"
+                }
+                1 => {
+                    // the same root key serves fabric `fab ^ 0x10` too: NOC (and ICAC) of that fabric
+                    for at in pn.s.iter_mut() { if let Attr::Fab(v) = at { *v = fab ^ 0x10; } }
+                    if let Some(i) = pi.as_mut() {
+                        for at in i.s.iter_mut() { if let Attr::Fab(v) = at { *v = fab ^ 0x10; } }
+                        pn.i = i.s.clone();
+                    }
+                    "other_fabric_same_root"
+                }
+                _ => {
+                    // only the ICAC is scoped to the other fabric
+                    let Some(i) = pi.as_mut() else { continue };
+                    for at in i.s.iter_mut() { if let Attr::Fab(v) = at { *v = fab ^ 0x10; } }
+                    pn.i = i.s.clone();
+                    "icac_other_fabric_same_root"
+                }
+            };
+            out.stat("kind_valid_but_not_addressed", 1);
+            out.stat(&format!("presented_{}_{}", if on_ctl { "ctl" } else { "dev" }, what), 1);
+            let o = |x: &Option<Rec>| x.as_ref().map(|r| r.text()).unwrap_or_else(|| "-".into());
+            let p = if on_ctl { "c" } else { "d" };
+            let extra = format!("{}pnoc={} {}picac={}", p, pn.text(), p, o(&pi));
+            emit(&mut out, vec![hs_line(&c.0, &c, &d, None, &extra)]);
         }
     }
 
@@ -871,7 +946,7 @@ pub fn gen(a: &Args) -> String {
         "s1:f:6", "s1:f:7", "s1:x:6", "s1:x:7", "s1:r", "s1:y:6", "s1:y:7", "s1:Y", "s1:z", "s1:f:1", "s1:f:2", "s1:x:1",
         "r2:f:1", "r2:f:2", "r2:f:3", "r2:x:1", "r2:x:2", "r2:r", "r2:y:1", "r2:y:2", "r2:z", "st:p", "st:t", "st:r",
     ];
-    let rounds = if a.thorough { 8 } else { 1 };
+    let rounds = if a.thorough { 20 } else { 1 };
     for _ in 0..rounds {
         for m in res_muts {
             let mut cr = r.fork();
@@ -895,7 +970,7 @@ pub fn gen(a: &Args) -> String {
     }
 
     // ---- 3. fabric removal between handshakes
-    let n_rm = if a.thorough { 120 } else { 12 };
+    let n_rm = if a.thorough { 300 } else { 12 };
     for i in 0..n_rm {
         let mut cr = r.fork();
         let (fab, c, d) = base(&mut cr, false);
@@ -933,7 +1008,7 @@ pub fn gen(a: &Args) -> String {
     }
 
     // ---- 4. the cache itself
-    let n_cache = if a.thorough { 1500 } else { 80 };
+    let n_cache = if a.thorough { 3000 } else { 80 };
     for _ in 0..n_cache {
         let mut cr = r.fork();
         out.stat("kind_cache_ops", 1);
@@ -951,7 +1026,7 @@ pub fn gen(a: &Args) -> String {
     }
 
     // ---- 5. the random mix
-    let n_cases = if a.thorough { 6000 } else { 300 };
+    let n_cases = if a.thorough { 15000 } else { 300 };
     for k in 0..n_cases {
         let mut cr = r.fork();
         let (_, c, d) = base(&mut cr, false);
